@@ -176,6 +176,16 @@ def gen_C12(tier, seed):
             p.add(lf, cls, 'OBJ2')
             p.write(1, valid=False, either=True)
             progs.append(p.build())
+        # two channels of the same name (copy numbers 0 and 1) in one frame: refused today; if written, then faithfully
+        for same_set in (True, False):
+            p = fringe(f'dupchannel-{same_set}-{r_}', 'dupchannel')
+            lf, _ = base_lf(p)
+            d = p.channel(lf, 'DEPTH', data=np.arange(4, dtype='float64'))
+            a1 = p.channel(lf, 'A', data=rand_array(rng, 'float64', 4))
+            a2 = p.channel(lf, 'A', data=rand_array(rng, 'float64', 4), set_name=None if same_set else 'OTHER')
+            p.frame(lf, 'MAIN', [d, a1, a2])
+            p.write(1, valid=False, either=True)
+            progs.append(p.build())
         # bad windows
         for frm, to in [(3, 3), (2, 1), (5, None), (4, None), (0, 9), (3, 9), (3, 5), (0, 5), (2, 6)]:
             p = fringe(f'window-{frm}-{to}-{r_}', 'window')
@@ -402,6 +412,38 @@ def gen_C17(tier, seed):
             r.write(2, valid=True, fname='after.dlis')
             p.steps.extend(r.steps)
             progs.append(p.build())
+    # the mode at the time of an assignment decides, not the mode at the time the object was built
+    k = 0
+    for attr, enum, bad, cls in [('units', 'Unit', 'furlong', 'channel'), ('index_type', 'FrameIndexType', 'SOME-INDEX', 'frame'),
+                                 ('_type', 'EquipmentType', 'Gizmo', 'equipment'), ('location', 'EquipmentLocation', 'Moon', 'equipment')]:
+        for built_inside in (False, True):
+            for how in (['plain', 'nested', 'exc'] if tier == 'thorough' else ['plain', 'exc' if built_inside else 'nested']):
+                k += 1
+                p = Prog(f'C17-late-{attr.strip("_")}-{built_inside}-{how}', {'kind': 'hc-late', 'attr': attr, 'built_inside': built_inside})
+                if built_inside:
+                    p.hc('enter')
+                p.file(1, setid='SET-1')
+                lf = p.lf(1, fh_id='HDR-1')
+                p.origin(lf, name='ORIGIN-1')
+                c = p.channel(lf, 'DEPTH', data=np.arange(4, dtype='float64'))
+                f = p.frame(lf, 'FRAME-1', [c])
+                e = p.add(lf, 'equipment', 'EQ-1')
+                obj = {'channel': c, 'frame': f, 'equipment': e}[cls]
+                if built_inside:
+                    p.hc('exc' if how == 'exc' else 'exit')
+                    # outside again: the non-standard value is accepted with a warning
+                    p.steps.append({'op': 'set', 'obj': obj, 'attr': attr, 'part': 'value', 'val': S(bad), 'enum': enum, 'soft_only': True})
+                    p.write(1, valid=True)
+                else:
+                    p.hc('enter')
+                    if how == 'nested':
+                        p.hc('enter')
+                        p.hc('exit')
+                    # inside: the non-standard value must be refused
+                    p.steps.append({'op': 'set', 'obj': obj, 'attr': attr, 'part': 'value', 'val': S(bad), 'enum': enum})
+                    p.write(1, valid=False, either=True)
+                    p.hc('exit')
+                progs.append(p.build())
     return progs
 
 
@@ -528,6 +570,34 @@ def gen_C20(tier, seed):
                 p.write(fid, route='dict', data_arrays={d: da}, valid=False, mustraise='missing', fname=f'o{proc}.dlis')
             else:
                 p.write(fid, route=how, data_arrays={d: da, r: ra}, fname=f'o{proc}.dlis')
+            if proc == 1:
+                p.next_proc()
+        progs.append(p.build())
+    # a rejected later assignment (cast dtype, attribute value) between two writes
+    for i in range(6 if tier == 'quick' else 30):
+        p = Prog(f'C20-rejset-{i}', {'kind': 'rejected', 'cls': 'set', 'pos': 'between-writes', 'cmpproj': True})
+        for proc in (1, 2):
+            fid = proc
+            p.file(fid, vrl=512)
+            lf = p.lf(fid, lf=proc, fh_id='REJECTED-SET')
+            p.origin(lf, name='ORIGIN')
+            d = p.channel(lf, 'DEPTH')
+            r = p.channel(lf, 'RPM')
+            fr = p.frame(lf, 'FR', [d, r])
+            z = p.add(lf, 'zone', 'ZONE', description=S('zone'))
+            da = p.array(np.arange(4, dtype='float64'), aid='depth')
+            r32 = p.array(np.arange(4, dtype='float32') * 1.5, aid='rpm32')
+            r64 = p.array(np.arange(4, dtype='float64') * 1.1, aid='rpm64')
+            p.write(fid, route='dict', data_arrays={d: da, r: r32}, fname=f'first{proc}.dlis')
+            if proc == 1:
+                which = i % 3
+                if which == 0:
+                    p.steps.append({'op': 'set', 'obj': r, 'part': 'cast_dtype', 'val': {'t': 'dtype', 'v': 'int64'}})
+                elif which == 1:
+                    p.set(z, 'description', I(5))
+                else:
+                    p.set(fr, 'spacing', S('wide'))
+            p.write(fid, route='dict', data_arrays={d: da, r: r64}, fname=f'second{proc}.dlis')
             if proc == 1:
                 p.next_proc()
         progs.append(p.build())
